@@ -56,6 +56,9 @@ def _protected_names() -> set:
                         names.add(x.func.id)
                     elif isinstance(x.func, _ast.Attribute):
                         names.add(x.func.attr)
+    # names of functions of the rules' own positive fixtures are not repository functions
+    names -= {'attach', 'drop', 'pick', 'pairs', 'cached_load', 'module', 'remember', 'lookup', 'rebuild',
+              'extend_surface', 'good', 'resolve'}
     return names
 
 
@@ -178,10 +181,10 @@ def _callee_ok(g: ast.FunctionDef) -> bool:
             (g.name.startswith('__') and g.name.endswith('__')):
         return False
     for d in g.decorator_list:
-        if not (isinstance(d, ast.Name) and d.id == 'staticmethod'):
+        if not (isinstance(d, ast.Name) and d.id in ('staticmethod', 'classmethod')):
             return False
     a = g.args
-    if a.vararg or a.kwarg or a.kwonlyargs:
+    if a.kwarg or a.kwonlyargs:
         return False
     body = [s for s in g.body if not (isinstance(s, ast.Expr) and isinstance(s.value, ast.Constant))]
     if not body or len(list(ast.walk(g))) > 900 or len(body) > MAX_BODY:
@@ -215,7 +218,14 @@ def _bind(g: ast.FunctionDef, call: ast.Call, receiver, is_static):
         bound[params[0]] = receiver
         params = params[1:]
     if len(args) > len(params):
-        return None
+        if g.args.vararg is None:
+            return None
+        extra = args[len(params):]
+        args = args[:len(params)]
+        tup = ast.Tuple(elts=list(extra), ctx=ast.Load())
+        bound[g.args.vararg.arg] = tup
+    elif g.args.vararg is not None:
+        bound[g.args.vararg.arg] = ast.Tuple(elts=[], ctx=ast.Load())
     for p, a in zip(params, args):
         bound[p] = a
     for k in call.keywords:
@@ -402,9 +412,19 @@ class _Inliner:
             g = methods.get(fn.attr)
             if g is not None and g is not f:
                 static = any(isinstance(d, ast.Name) and d.id == 'staticmethod' for d in g.decorator_list)
-                if isinstance(fn.value, ast.Name) and fn.value.id == selfn and selfn:
+                clsm = any(isinstance(d, ast.Name) and d.id == 'classmethod' for d in g.decorator_list)
+                if isinstance(fn.value, ast.Name) and fn.value.id == selfn and selfn and not clsm:
                     return g, fn.value, static
                 if isinstance(fn.value, ast.Name) and fn.value.id in (owner_cls, 'cls') and static:
+                    return g, None, True
+        # K.m(...) on a class of this module, m a classmethod / staticmethod
+        if isinstance(fn, ast.Attribute) and isinstance(fn.value, ast.Name) and fn.value.id in self.class_methods:
+            g = self.class_methods[fn.value.id].get(fn.attr)
+            if g is not None and g is not f:
+                decs = {d.id for d in g.decorator_list if isinstance(d, ast.Name)}
+                if 'classmethod' in decs:
+                    return g, fn.value, False          # cls is bound to the class name
+                if 'staticmethod' in decs:
                     return g, None, True
         # method call on a local known to hold a small record object of this module
         if isinstance(fn, ast.Attribute) and isinstance(fn.value, ast.Name) and fn.value.id in getattr(self, 'records', {}):
@@ -519,6 +539,24 @@ class _Inliner:
                 call, target = st.value, st.target
             elif isinstance(st, ast.Return) and isinstance(st.value, ast.Call):
                 call, target = st.value, 'return'
+            # if g(a): / if not g(a):   ->   t = g(a) ; if t: / if not t:      (then t = g(a) is un-extracted)
+            if isinstance(st, ast.If):
+                tcall = st.test.operand if isinstance(st.test, ast.UnaryOp) and isinstance(st.test.op, ast.Not) else st.test
+                if isinstance(tcall, ast.Call):
+                    res = self._resolve(owner_cls, f, tcall, nested)
+                    if res is not None and _callee_ok(res[0]) and _ends_with_value(res[0]) and _expr_callee(res[0]) is None:
+                        _counter[0] += 1
+                        tmp = f'__t__i{_counter[0]}'
+                        a = ast.Assign(targets=[ast.Name(id=tmp, ctx=ast.Store())], value=tcall, type_comment=None)
+                        ast.copy_location(a, st)
+                        ref = ast.copy_location(ast.Name(id=tmp, ctx=ast.Load()), tcall)
+                        if tcall is st.test:
+                            st.test = ref
+                        else:
+                            st.test.operand = ref
+                        stmts.insert(i, a)
+                        ast.fix_missing_locations(a)
+                        continue
             # C.extend(gen(args))  ->  for y in gen(args): C.append(y)       (so that the generator can be un-extracted)
             if isinstance(st, ast.Expr) and isinstance(st.value, ast.Call) and isinstance(st.value.func, ast.Attribute) \
                     and st.value.func.attr == 'extend' and len(st.value.args) == 1 and isinstance(st.value.args[0], ast.Call):
